@@ -80,7 +80,7 @@ func (ei *epochInfo) affected(key string) bool {
 		return false
 	}
 	if strings.HasPrefix(key, "ghost:") {
-		if ei.stable != nil && ei.stable[strings.TrimPrefix(key, "ghost:")] {
+		if strings.HasPrefix(key, "ghost:vis_") || (ei.stable != nil && ei.stable[strings.TrimPrefix(key, "ghost:")]) {
 			return ei.ghostSet[strings.TrimPrefix(key, "ghost:")]
 		}
 		return ei.ghosts
@@ -207,6 +207,7 @@ type VC struct {
 	defers    []deferRec
 	hdrBefore map[*ssa.BasicBlock]map[string]TV
 	hdrLoopHeap map[*ssa.BasicBlock]*Heap
+	rangeDom    map[*ssa.Range]string // domain of a ranged map at the start of its range statement
 	hdrDecr   map[*ssa.BasicBlock]string
 	varOut    map[*ssa.BasicBlock]map[string]ssa.Value
 	addrOut   map[*ssa.BasicBlock]map[string]ssa.Value
@@ -765,7 +766,7 @@ func (v *VC) havocFramed(h *Heap, ghosts bool, mods []modTerm) {
 	ei := &epochInfo{kind: "havoc", parent: h.epoch, all: true, ghosts: ghosts, newClock: nw, stable: v.P.db.StableGhosts, mods: mods, clockBefore: before}
 	ne := v.newEpoch(ei)
 	for _, k := range keys {
-		if k == clockKey || (strings.HasPrefix(k, "ghost:") && (!ghosts || v.P.db.StableGhosts[strings.TrimPrefix(k, "ghost:")])) {
+		if k == clockKey || strings.HasPrefix(k, "ghost:vis_") || (strings.HasPrefix(k, "ghost:") && (!ghosts || v.P.db.StableGhosts[strings.TrimPrefix(k, "ghost:")])) {
 			continue
 		}
 		old := h.m[k]
